@@ -221,34 +221,133 @@ Proof.
     + apply existsb_exists in Hs as [p [Hin Hp]]. apply (H p s); [exact Hin | exact Hp].
 Qed.
 
+(* ---------- scanWriter.pushObject: the walk with early exits ---------- *)
+
+Section PushProofs.
+  Context {A : Type}.
+  Variable globs : list bytes.
+  Variable text : A -> bytes.
+  Variable fok : A -> bool.
+  Variable limit : N.
+
+  (* the filter the reply is supposed to apply *)
+  Definition sel (o : A) : bool := glob_test globs (text o) && fok o.
+
+  Lemma first_match_spec ps val : first_match ps val = (existsb (fun p => gmatches p val) ps, true).
+  Proof.
+    induction ps as [|p r IH]; cbn [first_match existsb]; [reflexivity|].
+    destruct (gmatches p val); [reflexivity | exact IH].
+  Qed.
+
+  (* globMatch never asks the walk to stop *)
+  Lemma glob_match_kg_spec o : glob_match_kg globs text o = (glob_test globs (text o), true).
+  Proof.
+    unfold glob_match_kg, glob_test. destruct (glob_everything globs); [reflexivity|].
+    rewrite first_match_spec. reflexivity.
+  Qed.
+
+  Lemma test_object_spec o : test_object globs text fok o = (sel o, true).
+  Proof.
+    unfold test_object, sel. rewrite glob_match_kg_spec.
+    destruct (glob_test globs (text o)); reflexivity.
+  Qed.
+
+  Lemma walk_items l : forall st, sw_nitems st < limit ->
+    out_items (walk_push globs text fok limit false st l) =
+    out_items st ++ firstn (N.to_nat (limit - sw_nitems st)) (filter sel l).
+  Proof.
+    unfold out_items.
+    induction l as [|o r IH]; intros st Hn; cbn [walk_push filter].
+    - rewrite firstn_nil, app_nil_r. reflexivity.
+    - unfold push_object. rewrite test_object_spec.
+      destruct (sel o); cbn [negb].
+      + replace (N.to_nat (limit - sw_nitems st)) with (S (N.to_nat (limit - (sw_nitems st + 1)))) by lia.
+        cbn [firstn].
+        destruct (N.eqb_spec (sw_nitems st + 1) limit) as [E|E].
+        * cbn [sw_filled rev]. replace (N.to_nat (limit - (sw_nitems st + 1))) with 0%nat by lia.
+          rewrite firstn_O. reflexivity.
+        * rewrite IH by (cbn [sw_nitems]; lia). cbn [sw_filled sw_nitems rev].
+          rewrite <- app_assoc. reflexivity.
+      + apply IH. exact Hn.
+  Qed.
+
+  Lemma walk_count l : forall st, sw_count st < limit ->
+    out_count (walk_push globs text fok limit true st l) =
+    N.min limit (sw_count st + N.of_nat (length (filter sel l))).
+  Proof.
+    unfold out_count.
+    induction l as [|o r IH]; intros st Hn; cbn [walk_push filter].
+    - cbn [length]. lia.
+    - unfold push_object. rewrite test_object_spec.
+      destruct (sel o); cbn [negb].
+      + cbn [length]. rewrite Nat2N.inj_succ.
+        destruct (N.ltb_spec (sw_count st + 1) limit) as [E|E].
+        * rewrite IH by (cbn [sw_count]; exact E). cbn [sw_count]. lia.
+        * cbn [sw_count]. lia.
+      + apply IH. exact Hn.
+  Qed.
+
+  (* the reply of a walk over the visited entries: the first LIMIT selected entries, in order;
+     COUNT = their number *)
+  Theorem walk_push_exact l : 1 <= limit ->
+    out_items (walk_push globs text fok limit false (@sw0 A) l) = firstn (N.to_nat limit) (filter sel l) /\
+    out_count (walk_push globs text fok limit true (@sw0 A) l) = N.min limit (N.of_nat (length (filter sel l))).
+  Proof.
+    intros H. split.
+    - rewrite walk_items by (cbn; lia). cbn. rewrite N.sub_0_r. reflexivity.
+    - rewrite walk_count by (cbn; lia). cbn. reflexivity.
+  Qed.
+End PushProofs.
+
 (* ---------- SCAN with several MATCH patterns ---------- *)
 
 Definition bsorted (l : list bytes) : Prop := StronglySorted (fun a b => bytes_ltb a b = true) l.
 
-Theorem scan_multi_exact globs desc ids :
+(* the range walk visits every id a filter implying the MATCH test accepts *)
+Lemma scan_visit_filter globs desc ids (P : bytes -> bool) :
   bsorted ids -> (forall p, In p globs -> prefix_ends_ff p = false) ->
-  scan_multi globs desc ids = filter (glob_test globs) (if desc then rev ids else ids).
+  (forall x, P x = true -> glob_test globs x = true) ->
+  filter P (scan_visit globs desc ids) = filter P (if desc then rev ids else ids).
 Proof.
-  intros Hs Hff. unfold scan_multi.
+  intros Hs Hff HP. unfold scan_visit.
   pose proof (multi_covers globs desc Hff) as Hc. cbv zeta in Hc.
   destruct (multi_glob_parse globs desc) as [l0 l1]. cbn [fst snd] in Hc.
   destruct (isempty l0 && isempty l1) eqn:Ee; [reflexivity|].
-  specialize (Hc eq_refl). unfold scan_range_visit, covers in *.
+  specialize (Hc eq_refl).
+  assert (Hc' : forall x, P x = true -> covers desc l0 l1 x = true) by (intros x Hx; apply Hc, HP, Hx).
+  clear Hc HP. unfold scan_range_visit, covers in *.
   destruct desc.
   - rewrite (filter_take_until (fun a b => bytes_ltb b a = true)).
-    + apply filter_skip_while. intros x Hx. apply Hc in Hx. apply andb_true_iff in Hx as [_ Hx].
+    + apply filter_skip_while. intros x Hx. apply Hc' in Hx. apply andb_true_iff in Hx as [_ Hx].
       unfold bytes_gtb. apply bytes_ltb_asym. exact Hx.
     + apply skip_while_sorted. apply (sorted_rev (fun a b => bytes_ltb a b = true)). exact Hs.
     + intros a b Hab Ha. eapply bytes_leb_trans; [apply bytes_ltb_leb; exact Hab | exact Ha].
-    + intros x Hx. apply Hc in Hx. apply andb_true_iff in Hx as [Hx _].
+    + intros x Hx. apply Hc' in Hx. apply andb_true_iff in Hx as [Hx _].
       apply bytes_ltb_leb_false. exact Hx.
   - rewrite (filter_take_until (fun a b => bytes_ltb a b = true)).
-    + apply filter_skip_while. intros x Hx. apply Hc in Hx. apply andb_true_iff in Hx as [Hx _].
+    + apply filter_skip_while. intros x Hx. apply Hc' in Hx. apply andb_true_iff in Hx as [Hx _].
       apply bytes_leb_ltb_false. exact Hx.
     + apply skip_while_sorted. exact Hs.
     + intros a b Hab Ha. unfold bytes_geb in *. eapply bytes_leb_trans; [exact Ha | apply bytes_ltb_leb; exact Hab].
-    + intros x Hx. apply Hc in Hx. apply andb_true_iff in Hx as [_ Hx].
+    + intros x Hx. apply Hc' in Hx. apply andb_true_iff in Hx as [_ Hx].
       unfold bytes_geb. apply bytes_ltb_leb_false. exact Hx.
+Qed.
+
+Definition scan_sel (globs : list bytes) (fok : bytes -> bool) (id : bytes) : bool := glob_test globs id && fok id.
+
+Theorem scan_multi_exact globs fok limit (desc : bool) (ids : list bytes) :
+  bsorted ids -> (forall p, In p globs -> prefix_ends_ff p = false) -> 1 <= limit ->
+  let all := if desc then rev ids else ids in
+  out_items (scan_multi globs fok limit false desc ids) = firstn (N.to_nat limit) (filter (scan_sel globs fok) all) /\
+  out_count (scan_multi globs fok limit true desc ids) = N.min limit (N.of_nat (length (filter (scan_sel globs fok) all))).
+Proof.
+  intros Hs Hff Hl all. unfold scan_multi.
+  destruct (walk_push_exact globs (fun id : bytes => id) fok limit (scan_visit globs desc ids) Hl) as [H1 H2].
+  rewrite H1, H2.
+  assert (E : filter (sel globs (fun id : bytes => id) fok) (scan_visit globs desc ids) = filter (scan_sel globs fok) all).
+  { apply (scan_visit_filter globs desc ids (scan_sel globs fok) Hs Hff).
+    intros x Hx. unfold scan_sel in Hx. apply andb_true_iff in Hx. tauto. }
+  rewrite E. split; reflexivity.
 Qed.
 
 (* ---------- SEARCH (value index) with several MATCH patterns ---------- *)
@@ -282,45 +381,81 @@ Qed.
 
 Definition vsorted (l : list ventry) : Prop := StronglySorted (fun a b => ventry_ltb a b = true) l.
 
-Theorem search_multi_exact globs desc vs :
+Lemma search_visit_filter globs desc vs (P : ventry -> bool) :
   vsorted vs -> (forall p, In p globs -> prefix_ends_ff p = false) ->
-  search_multi globs desc vs =
-  map snd (filter (fun e : ventry => glob_test globs (fst e)) (if desc then rev vs else vs)).
+  (forall e, P e = true -> glob_test globs (fst e) = true) ->
+  filter P (search_visit globs desc vs) = filter P (if desc then rev vs else vs).
 Proof.
-  intros Hs Hff. unfold search_multi.
+  intros Hs Hff HP. unfold search_visit.
   pose proof (multi_covers globs desc Hff) as Hc. cbv zeta in Hc.
   destruct (multi_glob_parse globs desc) as [l0 l1]. cbn [fst snd] in Hc.
   destruct (isempty l0 && isempty l1) eqn:Ee; [reflexivity|].
-  specialize (Hc eq_refl). f_equal. unfold search_range_visit, covers in *.
+  specialize (Hc eq_refl).
+  assert (Hc' : forall e, P e = true -> covers desc l0 l1 (fst e) = true) by (intros x Hx; apply Hc, HP, Hx).
+  clear Hc HP. unfold search_range_visit, covers in *.
   destruct desc.
   - rewrite (filter_take_until (fun a b => ventry_ltb b a = true)).
-    + apply filter_skip_while. intros x Hx. apply Hc in Hx. apply andb_true_iff in Hx as [_ Hx].
+    + apply filter_skip_while. intros x Hx. apply Hc' in Hx. apply andb_true_iff in Hx as [_ Hx].
       apply ventry_ltb_pivot_l_gt. exact Hx.
     + apply skip_while_sorted. apply (sorted_rev (fun a b => ventry_ltb a b = true)). exact Hs.
     + intros a b Hab Ha. apply negb_true_iff in Ha. apply negb_true_iff.
       destruct (ventry_ltb (l1, []) b) eqn:Eb; [|reflexivity].
       rewrite (ventry_ltb_trans _ _ _ Eb Hab) in Ha. discriminate.
-    + intros x Hx. apply Hc in Hx. apply andb_true_iff in Hx as [Hx _].
+    + intros x Hx. apply Hc' in Hx. apply andb_true_iff in Hx as [Hx _].
       apply negb_false_iff. apply ventry_ltb_pivot_l_lt. exact Hx.
   - rewrite (filter_take_until (fun a b => ventry_ltb a b = true)).
-    + apply filter_skip_while. intros x Hx. apply Hc in Hx. apply andb_true_iff in Hx as [Hx _].
+    + apply filter_skip_while. intros x Hx. apply Hc' in Hx. apply andb_true_iff in Hx as [Hx _].
       rewrite ventry_ltb_pivot_r. apply bytes_leb_ltb_false. exact Hx.
     + apply skip_while_sorted. exact Hs.
     + intros a b Hab Ha. apply negb_true_iff in Ha. apply negb_true_iff.
       destruct (ventry_ltb b (l1, [])) eqn:Eb; [|reflexivity].
       rewrite (ventry_ltb_trans _ _ _ Hab Eb) in Ha. discriminate.
-    + intros x Hx. apply Hc in Hx. apply andb_true_iff in Hx as [_ Hx].
+    + intros x Hx. apply Hc' in Hx. apply andb_true_iff in Hx as [_ Hx].
       apply negb_false_iff. rewrite ventry_ltb_pivot_r. exact Hx.
 Qed.
 
-(* DESC only reverses, for any number of patterns (ids are distinct: filter commutes with rev) *)
-Corollary scan_multi_desc_rev globs ids :
-  bsorted ids -> (forall p, In p globs -> prefix_ends_ff p = false) ->
-  scan_multi globs true ids = rev (scan_multi globs false ids).
+Definition search_sel (globs : list bytes) (fok : ventry -> bool) (e : ventry) : bool := glob_test globs (fst e) && fok e.
+
+(* every entry whose VALUE passes MATCH and whose fields pass the filter is returned (up to LIMIT),
+   however many ids share one value *)
+Theorem search_multi_exact globs fok limit (desc : bool) (vs : list ventry) :
+  vsorted vs -> (forall p, In p globs -> prefix_ends_ff p = false) -> 1 <= limit ->
+  let all := if desc then rev vs else vs in
+  map snd (out_items (search_multi globs fok limit false desc vs)) =
+    map snd (firstn (N.to_nat limit) (filter (search_sel globs fok) all)) /\
+  out_count (search_multi globs fok limit true desc vs) = N.min limit (N.of_nat (length (filter (search_sel globs fok) all))).
 Proof.
-  intros Hs Hff. rewrite !scan_multi_exact by assumption.
-  clear. induction ids as [|x r IH]; cbn; [reflexivity|].
-  rewrite filter_app, IH. cbn. destruct (glob_test globs x); cbn; [reflexivity | rewrite app_nil_r; reflexivity].
+  intros Hs Hff Hl all. unfold search_multi.
+  destruct (walk_push_exact globs (@fst bytes bytes) fok limit (search_visit globs desc vs) Hl) as [H1 H2].
+  rewrite H1, H2.
+  assert (E : filter (sel globs (@fst bytes bytes) fok) (search_visit globs desc vs) = filter (search_sel globs fok) all).
+  { apply (search_visit_filter globs desc vs (search_sel globs fok) Hs Hff).
+    intros x Hx. unfold search_sel in Hx. apply andb_true_iff in Hx. tauto. }
+  rewrite E. split; reflexivity.
+Qed.
+
+(* the iteration-control results themselves: on values as on ids, a hit never ends the walk *)
+Lemma test_object_keeps_going (globs : list bytes) (fok : ventry -> bool) (e : ventry) :
+  glob_match_kg globs fst e = (glob_test globs (fst e), true) /\
+  test_object globs fst fok e = (search_sel globs fok e, true).
+Proof. split; [apply glob_match_kg_spec | apply test_object_spec]. Qed.
+
+(* DESC only reverses, for any number of patterns and any field filter, when LIMIT does not cut *)
+Corollary scan_multi_desc_rev globs fok limit ids :
+  bsorted ids -> (forall p, In p globs -> prefix_ends_ff p = false) -> N.of_nat (length ids) < limit ->
+  out_items (scan_multi globs fok limit false true ids) = rev (out_items (scan_multi globs fok limit false false ids)).
+Proof.
+  intros Hs Hff Hl.
+  destruct (scan_multi_exact globs fok limit true ids Hs Hff ltac:(lia)) as [H1 _].
+  destruct (scan_multi_exact globs fok limit false ids Hs Hff ltac:(lia)) as [H2 _].
+  rewrite H1, H2.
+  assert (Hlen : forall l : list bytes, (length (filter (scan_sel globs fok) l) <= length l)%nat).
+  { induction l as [|x r IH]; cbn; [lia|]. destruct (scan_sel globs fok x); cbn; lia. }
+  rewrite !firstn_all2.
+  - clear. induction ids as [|x r IH]; cbn; [reflexivity|].
+    rewrite filter_app, IH. cbn. destruct (scan_sel globs fok x); cbn; [reflexivity | rewrite app_nil_r; reflexivity].
+  - specialize (Hlen ids). lia.
+  - specialize (Hlen (rev ids)). rewrite rev_length in Hlen. lia.
 Qed.
 
 (* ---------- hooks and channels ---------- *)
